@@ -144,6 +144,23 @@ check('C04',
       'machine-checked proof in Coq (Z/Q index logic, C values) + exact zero-bin correspondence (vm_compute) + numerical oracle',
       'DESIGN.md 5 C04')
 
+check('C14',
+      'Coq theorems (Props/C14.v, axiom-free): a flow-sensitive may-alias effect analyser over a structured IR (assign / in-place write / '
+      'unknown call / sequence / branch / loop; expressions alias-of, fresh, variable) is SOUND for a semantics in which a value denotes '
+      'the set of input buffers it really shares memory with, view-or-copy is a free choice, and an execution may stop anywhere (the call '
+      'raised): an accepted function writes no input buffer in any execution or prefix of one (C14_analyser_sound). The IR of 44 pulsarbat '
+      'functions and methods (all transforms, dedispersion, chirp, stft/istft, real_to_complex, slicing, like, dask helpers, '
+      'polarisation/Stokes conversions, constructors and setters) is REGENERATED from the current source by translator T3 on every run and '
+      'C14_every_function_accepted / C14_no_input_written are re-proved about it by vm_compute. PARTIAL: soundness is with respect to T3\'s '
+      'lowering and its alias/fresh/sink classification tables; these are cross-validated on every run by byte-wise snapshots of the whole '
+      'base buffer, dtype, strides and all attributes of every input around ~3000 public calls (valid and raising) on four buffer layouts, '
+      'in random sequences sharing inputs.',
+      'Trusted: Coq kernel; translator T3 and its classification tables; numpy tobytes as observation; Signal.__array_ufunc__ (the '
+      'sanctioned out= / in-place operator path) is not lowered; readers take no signal arguments and are covered by C11; dask execution '
+      'is observed, not modelled.',
+      'machine-checked proof in Coq of a verified effect analyser run on IR regenerated from source (T3) + dynamic byte-snapshot run',
+      'DESIGN.md 5 C14')
+
 ALL = [f'C{i:02d}' for i in range(1, 21)]
 
 def main():
